@@ -512,7 +512,8 @@ func (n *node) op(op string) string {
 			}
 			bl = append(bl, fmt.Sprintf("%d:%s:%s:%s", h, idTok(blockIDOf(b)), idTok(sc.BlockID), commitToks(sc)))
 		}
-		return fmt.Sprintf("state=%d:%s blocks=%s", state.LastBlockHeight, idTok(state.LastBlockID), strings.Join(append([]string{}, bl...), ";")) + dashIfEmpty(bl)
+		_ = bl
+		return storeLine(n.ch, n.bs, state)
 	case "restart":
 		if len(f) != 1 {
 			return "bad-op"
@@ -562,20 +563,47 @@ func execCase(c core.Case) []string {
 }
 
 func execOnce(c core.Case) []string {
-	if len(c.Ops) > 0 && strings.HasPrefix(c.Ops[0], "e2e ") {
-		return execE2E(c)
-	}
 	out := make([]string, 0, len(c.Ops))
 	var n *node
+	var n2 *v2node
 	defer func() {
 		if n != nil {
 			n.close()
+		}
+		if n2 != nil {
+			n2.close()
 		}
 	}()
 	for _, op := range c.Ops {
 		f := strings.Fields(op)
 		if len(f) == 0 {
 			out = append(out, "bad-op")
+			continue
+		}
+		if strings.HasPrefix(f[0], "v2") {
+			if f[0] == "v2init" {
+				m := kv(op)
+				ch, err := getChain(m["vals"], m["ih"], m["upd"])
+				if err != nil {
+					out = append(out, "bad-op")
+					continue
+				}
+				if n2 != nil {
+					n2.close()
+				}
+				if n2, err = newV2(ch); err != nil {
+					out = append(out, "init-error")
+					n2 = nil
+					continue
+				}
+				out = append(out, fmt.Sprintf("ok h=%d", n2.pc.State().LastBlockHeight))
+				continue
+			}
+			if n2 == nil {
+				out = append(out, "bad-op")
+				continue
+			}
+			out = append(out, n2.op(op))
 			continue
 		}
 		if f[0] == "init" {
